@@ -5,7 +5,7 @@
    specification under a subsuming flag; a covered pair has no derivation of a conflict. *)
 From GV Require Import Base.Prelude Valid.Overlap Valid.OverlapProps Valid.PairSet Valid.OverlapOpt
   Valid.OverlapOptProps Valid.OverlapOptTrace Valid.OverlapAdequacy Valid.OverlapEquiv
-  Valid.OverlapOptClosure.
+  Valid.OverlapOptClosure Valid.OverlapOptTerm.
 
 (* ---------------------------------------------------------------- field maps and spread lists *)
 (* spread names of a selection set, inline fragments flattened *)
@@ -374,6 +374,18 @@ Section Cover.
   Lemma Sfrag_sprs fd n : In n (Sfrag fd) <-> In n (sprs (fr_body fd)).
   Proof. unfold Sfrag. apply S_sprs. Qed.
 
+  Lemma HL_fp id fm F r : In (TvFp id fm F r) L ->
+    forall fd, find_frag frags F = Some fd -> (id =? setid_code (IdFrag F)) = false ->
+      crossCmp L r fm (Dfrag fd) /\ forall sp, In sp (Sfrag fd) -> covFF L r id fm sp.
+  Proof. intro H. exact (HL _ H). Qed.
+
+  Lemma HL_gg F G r : In (TvGg F G r) L ->
+    forall d1 d2, find_frag frags F = Some d1 -> find_frag frags G = Some d2 ->
+      crossCmp L r (Dfrag d1) (Dfrag d2) /\
+      (forall sp, In sp (Sfrag d2) -> covGG L r F sp) /\
+      (forall sp, In sp (Sfrag d1) -> covGG L r sp G).
+  Proof. intro H. exact (HL _ H). Qed.
+
   (* fields of a visited set against the fields of a fragment it reaches *)
   Lemma ff_cov : forall sps F, Reach frags sps F -> forall e q id t, In (q, id, t) AllSets ->
     (forall sp, In sp sps -> covFF L e (setid_code id) (flat q t) sp) ->
@@ -381,22 +393,22 @@ Section Cover.
     forall u v, In u (flat q t) -> In v (body_flat fd) -> same_rname u v = true -> PC e u v.
   Proof.
     induction 1 as [sps F Hin|sps G gd F Hin Hg Hr IH]; intros e q id t Hset Hcov fd Hfd u v Hu Hv Hrn.
-    - destruct (Hcov F Hin) as [r [Hc Hev]]. pose proof (HL _ Hev fd Hfd) as Ho.
+    - destruct (Hcov F Hin) as [r [Hc Hev]]. pose proof (HL_fp _ _ _ _ Hev fd Hfd) as Ho.
       destruct (setid_code id =? setid_code (IdFrag F)) eqn:Es.
       + apply N.eqb_eq in Es.
         pose proof (Hcode _ _ Hset (Hfrag_vis F fd Hfd) Es) as Heq. inversion Heq; subst.
         apply (PC_weaken false); [apply covers_false|]. eapply within_flat; eauto.
       + destruct (Ho eq_refl) as [Hx _]. right. exists r. split; auto. left.
         apply Hx; auto. rewrite Dfrag_flat. exact Hv.
-    - destruct (Hcov G Hin) as [r [Hc Hev]]. pose proof (HL _ Hev gd Hg) as Ho.
+    - destruct (Hcov G Hin) as [r [Hc Hev]]. pose proof (HL_fp _ _ _ _ Hev gd Hg) as Ho.
       destruct (setid_code id =? setid_code (IdFrag G)) eqn:Es.
       + apply N.eqb_eq in Es.
         pose proof (Hcode _ _ Hset (Hfrag_vis G gd Hg) Es) as Heq. inversion Heq; subst.
         apply (PC_weaken false); [apply covers_false|].
-        apply (IH false (fr_type gd) (IdFrag G) (fr_body gd)); auto.
-        destruct (set_post_parts _ _ _ Hset) as [_ [B _]]. exact B.
+        destruct (set_post_parts _ _ _ Hset) as [_ [B _]].
+        apply (IH false _ _ _ Hset B fd Hfd u v); auto.
       + destruct (Ho eq_refl) as [_ Hn]. apply (PC_weaken r); [exact Hc|].
-        apply (IH r q id t); auto. intros sp Hsp. apply Hn. apply Sfrag_sprs. exact Hsp.
+        apply (IH r q id t Hset (fun sp Hsp => Hn sp (proj2 (Sfrag_sprs gd sp) Hsp)) fd Hfd u v); auto.
   Qed.
 
   (* fields of two fragments: reached from a covered pair of fragments *)
@@ -413,48 +425,49 @@ Section Cover.
         apply (PC_weaken false); [apply covers_false|].
         eapply within_flat; [apply (Hfrag_vis G fd Hfd)| | |]; auto.
       + destruct Hev as [Hev|Hev].
-        * destruct (HL _ Hev fd gd Hfd Hgd) as [Hx _]. right. exists r. split; auto. left.
+        * destruct (HL_gg _ _ _ Hev fd gd Hfd Hgd) as [Hx _]. right. exists r. split; auto. left.
           apply Hx; auto; rewrite Dfrag_flat; assumption.
-        * destruct (HL _ Hev gd fd Hgd Hfd) as [Hx _]. right. exists r. split; auto. right.
+        * destruct (HL_gg _ _ _ Hev gd fd Hgd Hfd) as [Hx _]. right. exists r. split; auto. right.
           apply Hx; auto; try (rewrite Dfrag_flat; assumption). rewrite same_rname_sym. exact Hrn.
     - (* F at its root, G below G0 *)
       destruct Hcov as [->|[r [Hc Hev]]].
       + rewrite Hfd in Hg0. inversion Hg0; subst gd0.
         apply (PC_weaken false); [apply covers_false|].
+        destruct (set_post_parts _ _ _ (Hfrag_vis G0 fd Hfd)) as [_ [B _]].
         apply (ff_cov (sprs (fr_body fd)) G (RS_Reach frags sp2 G _ Hs2 Hr2) false
-                      (fr_type fd) (IdFrag G0) (fr_body fd) (Hfrag_vis G0 fd Hfd)); auto.
-        destruct (set_post_parts _ _ _ (Hfrag_vis G0 fd Hfd)) as [_ [B _]]. exact B.
+                      _ _ _ (Hfrag_vis G0 fd Hfd) B gd Hgd u v); auto.
       + apply (PC_weaken r); [exact Hc|]. destruct Hev as [Hev|Hev].
-        * destruct (HL _ Hev fd gd0 Hfd Hg0) as [_ [Hn _]].
-          apply (IH2 r); auto. apply Hn. apply Sfrag_sprs. exact Hs2.
-        * destruct (HL _ Hev gd0 fd Hg0 Hfd) as [_ [_ Hn]].
-          apply (IH2 r); auto. apply covGG_sym. apply Hn. apply Sfrag_sprs. exact Hs2.
+        * destruct (HL_gg _ _ _ Hev fd gd0 Hfd Hg0) as [_ [Hn _]].
+          apply (IH2 r (Hn sp2 (proj2 (Sfrag_sprs gd0 sp2) Hs2)) fd gd Hfd Hgd u v); auto.
+        * destruct (HL_gg _ _ _ Hev gd0 fd Hg0 Hfd) as [_ [_ Hn]].
+          apply (IH2 r (covGG_sym _ _ _ (Hn sp2 (proj2 (Sfrag_sprs gd0 sp2) Hs2))) fd gd Hfd Hgd u v); auto.
     - (* F below F0, G at its root *)
       destruct Hcov as [->|[r [Hc Hev]]].
       + rewrite Hgd in Hf0. inversion Hf0; subst fd0.
         apply (PC_weaken false); [apply covers_false|]. apply PC_sym.
+        destruct (set_post_parts _ _ _ (Hfrag_vis G gd Hgd)) as [_ [B _]].
         apply (ff_cov (sprs (fr_body gd)) F (RS_Reach frags sp1 F _ Hs1 Hr1) false
-                      (fr_type gd) (IdFrag G) (fr_body gd) (Hfrag_vis G gd Hgd)); auto.
-        * destruct (set_post_parts _ _ _ (Hfrag_vis G gd Hgd)) as [_ [B _]]. exact B.
-        * rewrite same_rname_sym. exact Hrn.
+                      _ _ _ (Hfrag_vis G gd Hgd) B fd Hfd v u); auto.
+        rewrite same_rname_sym. exact Hrn.
       + apply (PC_weaken r); [exact Hc|]. destruct Hev as [Hev|Hev].
-        * destruct (HL _ Hev fd0 gd Hf0 Hgd) as [_ [_ Hn]].
-          apply (IH1 G G (RS_refl frags G) r); auto. apply Hn. apply Sfrag_sprs. exact Hs1.
-        * destruct (HL _ Hev gd fd0 Hgd Hf0) as [_ [Hn _]].
-          apply (IH1 G G (RS_refl frags G) r); auto. apply covGG_sym. apply Hn. apply Sfrag_sprs. exact Hs1.
+        * destruct (HL_gg _ _ _ Hev fd0 gd Hf0 Hgd) as [_ [_ Hn]].
+          apply (IH1 G G (RS_refl frags G) r (Hn sp1 (proj2 (Sfrag_sprs fd0 sp1) Hs1)) fd gd Hfd Hgd u v); auto.
+        * destruct (HL_gg _ _ _ Hev gd fd0 Hgd Hf0) as [_ [Hn _]].
+          apply (IH1 G G (RS_refl frags G) r (covGG_sym _ _ _ (Hn sp1 (proj2 (Sfrag_sprs fd0 sp1) Hs1)))
+                     fd gd Hfd Hgd u v); auto.
     - (* both below *)
       destruct Hcov as [->|[r [Hc Hev]]].
       + rewrite Hf0 in Hg0. inversion Hg0; subst gd0.
         apply (PC_weaken false); [apply covers_false|].
         destruct (N.eq_dec sp1 sp2) as [->|Hne].
-        * apply (IH1 sp2 G Hr2 false); auto. left. reflexivity.
-        * apply (IH1 sp2 G Hr2 false); auto.
-          destruct (set_post_parts _ _ _ (Hfrag_vis G0 fd0 Hf0)) as [_ [_ C]]. apply C; auto.
+        * apply (IH1 sp2 G Hr2 false (or_introl eq_refl) fd gd Hfd Hgd u v); auto.
+        * destruct (set_post_parts _ _ _ (Hfrag_vis G0 fd0 Hf0)) as [_ [_ C]].
+          apply (IH1 sp2 G Hr2 false (C sp1 sp2 Hs1 Hs2 Hne) fd gd Hfd Hgd u v); auto.
       + apply (PC_weaken r); [exact Hc|]. destruct Hev as [Hev|Hev].
-        * destruct (HL _ Hev fd0 gd0 Hf0 Hg0) as [_ [Hn _]].
-          apply (IH2 r); auto. apply Hn. apply Sfrag_sprs. exact Hs2.
-        * destruct (HL _ Hev gd0 fd0 Hg0 Hf0) as [_ [_ Hn]].
-          apply (IH2 r); auto. apply covGG_sym. apply Hn. apply Sfrag_sprs. exact Hs2.
+        * destruct (HL_gg _ _ _ Hev fd0 gd0 Hf0 Hg0) as [_ [Hn _]].
+          apply (IH2 r (Hn sp2 (proj2 (Sfrag_sprs gd0 sp2) Hs2)) fd gd Hfd Hgd u v); auto.
+        * destruct (HL_gg _ _ _ Hev gd0 fd0 Hg0 Hf0) as [_ [_ Hn]].
+          apply (IH2 r (covGG_sym _ _ _ (Hn sp2 (proj2 (Sfrag_sprs gd0 sp2) Hs2))) fd gd Hfd Hgd u v); auto.
   Qed.
 
   (* all pairs inside the expansion of one visited set *)
@@ -464,12 +477,13 @@ Section Cover.
     intros Hset Hu Hv Hrn. destruct (set_post_parts q id t Hset) as [A [B C]].
     destruct Hu as [Hu|[F [fd [HrF [Hfd Hu]]]]]; destruct Hv as [Hv|[G [gd [HrG [Hgd Hv]]]]].
     - eapply within_flat; eauto.
-    - apply (ff_cov (sprs t) G HrG false q id t Hset B gd Hgd); auto.
-    - apply PC_sym. apply (ff_cov (sprs t) F HrF false q id t Hset B fd Hfd); auto.
+    - apply (ff_cov (sprs t) G HrG false q id t Hset B gd Hgd u v); auto.
+    - apply PC_sym. apply (ff_cov (sprs t) F HrF false q id t Hset B fd Hfd v u); auto.
       rewrite same_rname_sym. exact Hrn.
     - destruct (Reach_RS frags _ _ HrF) as [sp1 [Hs1 R1]]. destruct (Reach_RS frags _ _ HrG) as [sp2 [Hs2 R2]].
-      apply (gg_cov sp1 F R1 sp2 G R2 false); auto.
-      destruct (N.eq_dec sp1 sp2) as [->|Hne]; [left; reflexivity | apply C; auto].
+      assert (Hcg : covGG L false sp1 sp2).
+      { destruct (N.eq_dec sp1 sp2) as [->|Hne]; [left; reflexivity | apply C; auto]. }
+      apply (gg_cov sp1 F R1 sp2 G R2 false Hcg fd gd Hfd Hgd u v); auto.
   Qed.
 
   (* all pairs between the expansions of two sets whose comparison is in the log *)
@@ -482,12 +496,556 @@ Section Cover.
     intros Hs1 Hs2 [Hx [Hf2 [Hf1 Hg]]] Hu Hv Hrn.
     destruct Hu as [Hu|[F [fd [HrF [Hfd Hu]]]]]; destruct Hv as [Hv|[G [gd [HrG [Hgd Hv]]]]].
     - right. exists e. split; [right; reflexivity|]. left. apply Hx; auto.
-    - apply (ff_cov (sprs t2) G HrG e q1 id1 t1 Hs1); auto.
-      intros sp Hsp. apply Hf2. apply S_sprs. exact Hsp.
-    - apply PC_sym. apply (ff_cov (sprs t1) F HrF e q2 id2 t2 Hs2); auto.
-      + intros sp Hsp. apply Hf1. apply S_sprs. exact Hsp.
-      + rewrite same_rname_sym. exact Hrn.
+    - apply (ff_cov (sprs t2) G HrG e q1 id1 t1 Hs1
+                    (fun sp Hsp => Hf2 sp (proj2 (S_sprs q2 t2 sp) Hsp)) gd Hgd u v); auto.
+    - apply PC_sym.
+      apply (ff_cov (sprs t1) F HrF e q2 id2 t2 Hs2
+                    (fun sp Hsp => Hf1 sp (proj2 (S_sprs q1 t1 sp) Hsp)) fd Hfd v u); auto.
+      rewrite same_rname_sym. exact Hrn.
     - destruct (Reach_RS frags _ _ HrF) as [sp1 [Hp1 R1]]. destruct (Reach_RS frags _ _ HrG) as [sp2 [Hp2 R2]].
-      apply (gg_cov sp1 F R1 sp2 G R2 e); auto. apply Hg; apply S_sprs; assumption.
+      apply (gg_cov sp1 F R1 sp2 G R2 e
+                    (Hg sp1 sp2 (proj2 (S_sprs q1 t1 sp1) Hp1) (proj2 (S_sprs q2 t2 sp2) Hp2))
+                    fd gd Hfd Hgd u v); auto.
   Qed.
 End Cover.
+
+(* ---------------------------------------------------------------- a covered pair has no conflict *)
+Section NoConflict.
+  Variable s : schema.
+  Variable d : document.
+  Notation frags := (d_frags d).
+  Variable L : list tev.
+  Variable AllSets : list (N * setid * sels).
+
+  Hypothesis HL : forall ev, In ev L -> OblEv s frags L ev.
+  Hypothesis HS : forall x, In x AllSets -> set_post L x.
+  Hypothesis Hfrag_vis : forall F fd, find_frag frags F = Some fd -> In (fr_type fd, IdFrag F, fr_body fd) AllSets.
+  Hypothesis Hcode : forall x y, In x AllSets -> In y AllSets ->
+    setid_code (snd (fst x)) = setid_code (snd (fst y)) -> x = y.
+  (* the sub-selection of every field occurrence is a visited set *)
+  Hypothesis Hsub_vis : forall x, EntryOk s d x -> has_sub (e_sub x) = true ->
+    In (sub_parent s x, IdField (f_id (e_fld x)), e_sub x) AllSets.
+  Hypothesis Hargs : forall x, EntryOk s d x -> args_nodup x.
+
+  Notation PCov := (PC L).
+
+  Lemma Exp_nil q u : Exp frags q SelNil u -> False.
+  Proof.
+    intros [H|[F [fd [H _]]]]; [contradiction|]. cbn in H. inversion H; subst; contradiction.
+  Qed.
+
+  Lemma has_sub_exp q t u : Exp frags q t u -> has_sub t = true.
+  Proof. destruct t; auto. intro H. destruct (Exp_nil _ _ H). Qed.
+
+  Lemma sub_parent_named x t : ft s x = Some t -> sub_parent s x = named t.
+  Proof. unfold ft, sub_parent. intros ->. reflexivity. Qed.
+
+  Lemma Dsub_flat x t : ft s x = Some t -> Dsub s x = flat (named t) (e_sub x).
+  Proof. intro H. unfold Dsub. rewrite (sub_parent_named x t H). apply D_flat. Qed.
+
+  Lemma merged_exp x y tx ty l w : merged d x y tx ty = Some l -> In w l ->
+    Exp frags (named tx) (e_sub x) w \/ Exp frags (named ty) (e_sub y) w.
+  Proof.
+    unfold merged. intros H Hw.
+    destruct (collect frags (length frags) (named tx) (e_sub x) ([], [])) as [st1|] eqn:E1; [|discriminate].
+    destruct (collect frags (length frags) (named ty) (e_sub y) st1) as [st2|] eqn:E2; [|discriminate].
+    inversion H; subst l.
+    destruct (collect_exp frags _ _ _ _ _ E2 w Hw) as [Hi|He]; [|right; exact He].
+    destruct (collect_exp frags _ _ _ _ _ E1 w Hi) as [[]|He]. left. exact He.
+  Qed.
+
+  Lemma within_sub x t u v : EntryOk s d x -> ft s x = Some t ->
+    Exp frags (named t) (e_sub x) u -> Exp frags (named t) (e_sub x) v ->
+    same_rname u v = true -> PCov false u v.
+  Proof.
+    intros Hx Ht Hu Hv Hr.
+    pose proof (Hsub_vis x Hx (has_sub_exp _ _ _ Hu)) as Hset. rewrite (sub_parent_named x t Ht) in Hset.
+    eapply (within_cov s d L AllSets); eauto.
+  Qed.
+
+  Theorem covered_no_conf : forall e x y, Conf s d e x y -> EntryOk s d x -> EntryOk s d y ->
+    PCov e x y -> False.
+  Proof.
+    induction 1 as [e x y tx ty Hx Hy Hd|e x y tx ty l u v Hx Hy Hd Hm Hb Hr Hc IH]; intros Ox Oy Hcov.
+    - (* a direct conflict of a covered pair *)
+      destruct Hcov as [->|[r [Hcr [Hcmp|Hcmp]]]].
+      + rewrite Hx in Hy. inversion Hy; subst ty. rewrite (direct_refl s e y tx (Hargs y Oy)) in Hd. discriminate.
+      + pose proof (HL _ Hcmp) as [Hn _].
+        pose proof (nodirect_direct s r x y tx ty Hx Hy Hn) as Hf.
+        rewrite (direct_covers s r e x y tx ty Hcr Hd) in Hf. discriminate.
+      + pose proof (HL _ Hcmp) as [Hn _].
+        pose proof (nodirect_direct s r y x ty tx Hy Hx Hn) as Hf.
+        rewrite <- (direct_sym s r x y tx ty (Hargs x Ox) (Hargs y Oy)) in Hf.
+        rewrite (direct_covers s r e x y tx ty Hcr Hd) in Hf. discriminate.
+    - (* a nested pair: it is covered as well *)
+      pose proof (merged_entries s d x y tx ty l Ox Oy Hx Hy Hm) as Hl. rewrite Forall_forall in Hl.
+      destruct (before_in _ _ _ Hb) as [Hu Hv].
+      apply (IH (Hl u Hu) (Hl v Hv)).
+      destruct (merged_exp x y tx ty l u Hm Hu) as [Eu|Eu];
+        destruct (merged_exp x y tx ty l v Hm Hv) as [Ev|Ev].
+      + apply (PC_weaken L false); [apply covers_false|]. eapply (within_sub x tx); eauto.
+      + (* u from x's side, v from y's side *)
+        destruct Hcov as [->|[r [Hcr [Hcmp|Hcmp]]]].
+        * rewrite Hx in Hy. inversion Hy; subst ty.
+          apply (PC_weaken L false); [apply covers_false|]. eapply (within_sub y tx); eauto.
+        * pose proof (HL _ Hcmp) as [_ Hob]. cbn beta in Hob.
+          pose proof (has_sub_exp _ _ _ Eu) as Sx. pose proof (has_sub_exp _ _ _ Ev) as Sy.
+          specialize (Hob ltac:(rewrite Sx, Sy; reflexivity)).
+          rewrite (Dsub_flat x tx Hx), (Dsub_flat y ty Hy) in Hob.
+          unfold Ssub in Hob. rewrite (sub_parent_named x tx Hx), (sub_parent_named y ty Hy) in Hob.
+          pose proof (Hsub_vis x Ox Sx) as Vx. rewrite (sub_parent_named x tx Hx) in Vx.
+          pose proof (Hsub_vis y Oy Sy) as Vy. rewrite (sub_parent_named y ty Hy) in Vy.
+          apply (PC_weaken L (excl_of s r x y)); [apply excl_covers; exact Hcr|].
+          exact (cross_cov s d L AllSets HL HS Hfrag_vis Hcode _ _ _ _ _ _ _ u v Vx Vy Hob Eu Ev Hr).
+        * pose proof (HL _ Hcmp) as [_ Hob]. cbn beta in Hob.
+          pose proof (has_sub_exp _ _ _ Eu) as Sx. pose proof (has_sub_exp _ _ _ Ev) as Sy.
+          specialize (Hob ltac:(rewrite Sx, Sy; reflexivity)).
+          rewrite (Dsub_flat x tx Hx), (Dsub_flat y ty Hy) in Hob.
+          unfold Ssub in Hob. rewrite (sub_parent_named x tx Hx), (sub_parent_named y ty Hy) in Hob.
+          pose proof (Hsub_vis x Ox Sx) as Vx. rewrite (sub_parent_named x tx Hx) in Vx.
+          pose proof (Hsub_vis y Oy Sy) as Vy. rewrite (sub_parent_named y ty Hy) in Vy.
+          apply (PC_weaken L (excl_of s r x y)); [apply excl_covers; exact Hcr|].
+          rewrite (excl_of_sym s r x y). apply PC_sym.
+          refine (cross_cov s d L AllSets HL HS Hfrag_vis Hcode _ _ _ _ _ _ _ v u Vy Vx Hob Ev Eu _).
+          rewrite same_rname_sym. exact Hr.
+      + (* u from y's side, v from x's side *)
+        destruct Hcov as [->|[r [Hcr [Hcmp|Hcmp]]]].
+        * rewrite Hx in Hy. inversion Hy; subst ty.
+          apply (PC_weaken L false); [apply covers_false|]. eapply (within_sub y tx); eauto.
+        * pose proof (HL _ Hcmp) as [_ Hob]. cbn beta in Hob.
+          pose proof (has_sub_exp _ _ _ Ev) as Sx. pose proof (has_sub_exp _ _ _ Eu) as Sy.
+          specialize (Hob ltac:(rewrite Sx, Sy; reflexivity)).
+          rewrite (Dsub_flat x tx Hx), (Dsub_flat y ty Hy) in Hob.
+          unfold Ssub in Hob. rewrite (sub_parent_named x tx Hx), (sub_parent_named y ty Hy) in Hob.
+          pose proof (Hsub_vis x Ox Sx) as Vx. rewrite (sub_parent_named x tx Hx) in Vx.
+          pose proof (Hsub_vis y Oy Sy) as Vy. rewrite (sub_parent_named y ty Hy) in Vy.
+          apply (PC_weaken L (excl_of s r x y)); [apply excl_covers; exact Hcr|]. apply PC_sym.
+          refine (cross_cov s d L AllSets HL HS Hfrag_vis Hcode _ _ _ _ _ _ _ v u Vx Vy Hob Ev Eu _).
+          rewrite same_rname_sym. exact Hr.
+        * pose proof (HL _ Hcmp) as [_ Hob]. cbn beta in Hob.
+          pose proof (has_sub_exp _ _ _ Ev) as Sx. pose proof (has_sub_exp _ _ _ Eu) as Sy.
+          specialize (Hob ltac:(rewrite Sx, Sy; reflexivity)).
+          rewrite (Dsub_flat x tx Hx), (Dsub_flat y ty Hy) in Hob.
+          unfold Ssub in Hob. rewrite (sub_parent_named x tx Hx), (sub_parent_named y ty Hy) in Hob.
+          pose proof (Hsub_vis x Ox Sx) as Vx. rewrite (sub_parent_named x tx Hx) in Vx.
+          pose proof (Hsub_vis y Oy Sy) as Vy. rewrite (sub_parent_named y ty Hy) in Vy.
+          apply (PC_weaken L (excl_of s r x y)); [apply excl_covers; exact Hcr|].
+          rewrite (excl_of_sym s r x y).
+          exact (cross_cov s d L AllSets HL HS Hfrag_vis Hcode _ _ _ _ _ _ _ u v Vy Vx Hob Eu Ev Hr).
+      + apply (PC_weaken L false); [apply covers_false|]. eapply (within_sub y ty); eauto.
+  Qed.
+
+  (* no selection set of the document has a conflict *)
+  Theorem closed_no_setconf p ss id :
+    InDoc s d p ss -> In (p, id, ss) AllSets -> SetConf s d p ss -> False.
+  Proof.
+    intros Hin Hset [st [x [y [Hc [Hb [Hr Hconf]]]]]].
+    assert (Hst : Forall (EntryOk s d) (snd st)).
+    { eapply collect_entries; [exact Hin| |exact Hc]. constructor. }
+    rewrite Forall_forall in Hst. destruct (before_in _ _ _ Hb) as [Hx Hy].
+    apply (covered_no_conf false x y Hconf (Hst x Hx) (Hst y Hy)).
+    assert (Hex : forall w, In w (snd st) -> Exp frags p ss w).
+    { intros w Hw. destruct (collect_exp frags _ _ _ _ _ Hc w Hw) as [[]|He]. exact He. }
+    eapply (within_cov s d L AllSets HL HS Hfrag_vis Hcode); eauto.
+  Qed.
+End NoConflict.
+
+Lemma NoDup_app_l {A} (a b : list A) : NoDup (a ++ b) -> NoDup a.
+Proof.
+  induction a as [|x a IH]; cbn; intro H; [constructor|].
+  inversion H; subst. constructor; auto. intro Hc. apply H2. apply in_or_app. left. exact Hc.
+Qed.
+
+Lemma NoDup_app_r {A} (a b : list A) : NoDup (a ++ b) -> NoDup b.
+Proof. induction a as [|x a IH]; cbn; intro H; auto. inversion H; auto. Qed.
+
+(* ---------------------------------------------------------------- the visited sets of a document *)
+Section Sets.
+  Variable s : schema.
+
+  Lemma opt_sets_trans : forall ss p q id t, In (q, id, t) (opt_sets s p ss) ->
+    incl (opt_sets s q t) (opt_sets s p ss).
+  Proof.
+    induction ss as [|f sub IHsub rest IHrest|iid tc sub IHsub rest IHrest|n rest IHrest];
+      intros p q id t Hin; cbn [opt_sets] in *.
+    - contradiction.
+    - apply in_app_or in Hin as [Hin|Hin].
+      + set (q0 := match field_type s p (f_name f) with Some t0 => named t0 | None => 0 end) in *.
+        assert (Hc : In (q, id, t) ((q0, IdField (f_id f), sub) :: opt_sets s q0 sub))
+          by (destruct sub; [contradiction| | |]; exact Hin).
+        assert (Hi : incl ((q0, IdField (f_id f), sub) :: opt_sets s q0 sub)
+                          (match sub with SelNil => [] | _ => (q0, IdField (f_id f), sub) :: opt_sets s q0 sub end))
+          by (destruct sub; [contradiction| | |]; apply incl_refl).
+        intros z Hz. apply in_or_app. left. apply Hi. right.
+        destruct Hc as [Hc|Hc]; [inversion Hc; subst; exact Hz | eapply IHsub; eauto].
+      + intros z Hz. apply in_or_app. right. eapply IHrest; eauto.
+    - apply in_app_or in Hin as [[Hin|Hin]|Hin].
+      + inversion Hin; subst. intros z Hz. apply in_or_app. left. right. exact Hz.
+      + intros z Hz. apply in_or_app. left. right. eapply IHsub; eauto.
+      + intros z Hz. apply in_or_app. right. eapply IHrest; eauto.
+    - eapply IHrest; eauto.
+  Qed.
+
+  (* the sub-selection of a field of a set is one of the sets below it *)
+  Lemma flat_sub_set : forall ss p x, In x (flat p ss) -> has_sub (e_sub x) = true ->
+    In (sub_parent s x, IdField (f_id (e_fld x)), e_sub x) (opt_sets s p ss).
+  Proof.
+    induction ss as [|f sub IHsub rest IHrest|iid tc sub IHsub rest IHrest|n rest IHrest];
+      intros p x Hin Hs; cbn [flat opt_sets] in *.
+    - contradiction.
+    - destruct Hin as [<-|Hin].
+      + cbn [e_sub e_fld e_parent] in *. apply in_or_app. left.
+        unfold sub_parent. cbn [e_parent e_fld e_sub].
+        destruct sub; [discriminate| | |]; left; reflexivity.
+      + apply in_or_app. right. auto.
+    - apply in_app_or in Hin as [Hin|Hin]; apply in_or_app; [left; right|right]; auto.
+    - auto.
+  Qed.
+
+  Lemma checked_in_opt : forall ss p q t, In (q, t) (checked_sets s p ss) ->
+    exists id, In (q, id, t) (opt_sets s p ss).
+  Proof.
+    induction ss as [|f sub IHsub rest IHrest|iid tc sub IHsub rest IHrest|n rest IHrest];
+      intros p q t Hin; cbn [checked_sets opt_sets] in *.
+    - contradiction.
+    - apply in_app_or in Hin as [Hin|Hin].
+      + destruct (field_type s p (f_name f)) as [ty|]; [|contradiction].
+        destruct sub; [contradiction| | |];
+          (destruct Hin as [Hin|Hin];
+           [inversion Hin; subst; eexists; apply in_or_app; left; left; reflexivity
+           |destruct (IHsub _ _ _ Hin) as [id Hi]; exists id; apply in_or_app; left; right; exact Hi]).
+      + destruct (IHrest _ _ _ Hin) as [id Hi]. exists id. apply in_or_app. right. exact Hi.
+    - apply in_app_or in Hin as [Hin|Hin].
+      + destruct (is_composite s match tc with Some t0 => t0 | None => p end); [|contradiction].
+        destruct Hin as [Hin|Hin].
+        * inversion Hin; subst. eexists. apply in_or_app. left. left. reflexivity.
+        * destruct (IHsub _ _ _ Hin) as [id Hi]. exists id. apply in_or_app. left. right. exact Hi.
+      + destruct (IHrest _ _ _ Hin) as [id Hi]. exists id. apply in_or_app. right. exact Hi.
+    - eauto.
+  Qed.
+
+  (* ids of the sets below a selection set *)
+  Definition idnum (i : setid) : N := match i with IdOp n | IdFrag n | IdField n | IdInline n => n end.
+
+  Lemma opt_sets_ids : forall ss p q id t, In (q, id, t) (opt_sets s p ss) ->
+    In (idnum id) (all_ids_sels ss) /\ (exists n, id = IdField n \/ id = IdInline n).
+  Proof.
+    induction ss as [|f sub IHsub rest IHrest|iid tc sub IHsub rest IHrest|n rest IHrest];
+      intros p q id t Hin; cbn [opt_sets all_ids_sels] in *.
+    - contradiction.
+    - apply in_app_or in Hin as [Hin|Hin].
+      + set (q0 := match field_type s p (f_name f) with Some t0 => named t0 | None => 0 end) in *.
+        assert (Hc : In (q, id, t) ((q0, IdField (f_id f), sub) :: opt_sets s q0 sub))
+          by (destruct sub; [contradiction| | |]; exact Hin).
+        destruct Hc as [Hc|Hc].
+        * inversion Hc; subst. split; [left; reflexivity | eauto].
+        * destruct (IHsub _ _ _ _ Hc) as [H1 H2]. split; auto. right. apply in_or_app. left. exact H1.
+      + destruct (IHrest _ _ _ _ Hin) as [H1 H2]. split; auto. right. apply in_or_app. right. exact H1.
+    - apply in_app_or in Hin as [[Hin|Hin]|Hin].
+      + inversion Hin; subst. split; [left; reflexivity | eauto].
+      + destruct (IHsub _ _ _ _ Hin) as [H1 H2]. split; auto. right. apply in_or_app. left. exact H1.
+      + destruct (IHrest _ _ _ _ Hin) as [H1 H2]. split; auto. right. apply in_or_app. right. exact H1.
+    - eauto.
+  Qed.
+
+  Lemma NoDup_app_disj {A} (a b : list A) x : NoDup (a ++ b) -> In x a -> In x b -> False.
+  Proof.
+    induction a as [|y a IH]; cbn; intros Hn Ha Hb; [contradiction|].
+    inversion Hn as [|? ? Hni Hr]; subst. destruct Ha as [->|Ha]; [|eauto].
+    apply Hni. apply in_or_app. right. exact Hb.
+  Qed.
+
+  (* within one selection set, the id determines the set *)
+  Lemma opt_sets_fun : forall ss p, NoDup (all_ids_sels ss) ->
+    forall q id t q' t', In (q, id, t) (opt_sets s p ss) -> In (q', id, t') (opt_sets s p ss) ->
+    q = q' /\ t = t'.
+  Proof.
+    induction ss as [|f sub IHsub rest IHrest|iid tc sub IHsub rest IHrest|n rest IHrest];
+      intros p Hn q id t q' t' H1 H2; cbn [opt_sets all_ids_sels] in *.
+    - contradiction.
+    - inversion Hn as [|? ? Hni Hr]; subst.
+      set (q0 := match field_type s p (f_name f) with Some t0 => named t0 | None => 0 end) in *.
+      assert (Hcase : forall q1 t1, In (q1, id, t1)
+                 ((match sub with SelNil => [] | _ => (q0, IdField (f_id f), sub) :: opt_sets s q0 sub end)
+                  ++ opt_sets s p rest) ->
+               (id = IdField (f_id f) /\ q1 = q0 /\ t1 = sub) \/ In (q1, id, t1) (opt_sets s q0 sub)
+               \/ In (q1, id, t1) (opt_sets s p rest)).
+      { intros q1 t1 Hi. apply in_app_or in Hi as [Hi|Hi]; auto.
+        destruct sub; [contradiction| | |];
+          (destruct Hi as [Hi|Hi]; [inversion Hi; subst; auto | auto]). }
+      destruct (Hcase _ _ H1) as [[E1 [-> ->]]|[A1|A1]]; destruct (Hcase _ _ H2) as [[E2 [-> ->]]|[A2|A2]]; auto.
+      + subst id. destruct (opt_sets_ids _ _ _ _ _ A2) as [Hi _]. cbn in Hi. exfalso. apply Hni.
+        apply in_or_app. left. exact Hi.
+      + subst id. destruct (opt_sets_ids _ _ _ _ _ A2) as [Hi _]. cbn in Hi. exfalso. apply Hni.
+        apply in_or_app. right. exact Hi.
+      + subst id. destruct (opt_sets_ids _ _ _ _ _ A1) as [Hi _]. cbn in Hi. exfalso. apply Hni.
+        apply in_or_app. left. exact Hi.
+      + eapply IHsub; eauto. eapply NoDup_app_l; eauto.
+      + destruct (opt_sets_ids _ _ _ _ _ A1) as [I1 _]. destruct (opt_sets_ids _ _ _ _ _ A2) as [I2 _].
+        exfalso. eapply (NoDup_app_disj _ _ _ Hr); eauto.
+      + subst id. destruct (opt_sets_ids _ _ _ _ _ A1) as [Hi _]. cbn in Hi. exfalso. apply Hni.
+        apply in_or_app. right. exact Hi.
+      + destruct (opt_sets_ids _ _ _ _ _ A1) as [I1 _]. destruct (opt_sets_ids _ _ _ _ _ A2) as [I2 _].
+        exfalso. eapply (NoDup_app_disj _ _ _ Hr); eauto.
+      + eapply IHrest; eauto. eapply NoDup_app_r; eauto.
+    - inversion Hn as [|? ? Hni Hr]; subst.
+      set (q0 := match tc with Some t0 => t0 | None => p end) in *.
+      assert (Hcase : forall q1 t1, In (q1, id, t1) (((q0, IdInline iid, sub) :: opt_sets s q0 sub) ++ opt_sets s p rest) ->
+               (id = IdInline iid /\ q1 = q0 /\ t1 = sub) \/ In (q1, id, t1) (opt_sets s q0 sub)
+               \/ In (q1, id, t1) (opt_sets s p rest)).
+      { intros q1 t1 Hi. apply in_app_or in Hi as [[Hi|Hi]|Hi]; auto. inversion Hi; subst; auto. }
+      destruct (Hcase _ _ H1) as [[E1 [-> ->]]|[A1|A1]]; destruct (Hcase _ _ H2) as [[E2 [-> ->]]|[A2|A2]]; auto.
+      + subst id. destruct (opt_sets_ids _ _ _ _ _ A2) as [Hi _]. cbn in Hi. exfalso. apply Hni.
+        apply in_or_app. left. exact Hi.
+      + subst id. destruct (opt_sets_ids _ _ _ _ _ A2) as [Hi _]. cbn in Hi. exfalso. apply Hni.
+        apply in_or_app. right. exact Hi.
+      + subst id. destruct (opt_sets_ids _ _ _ _ _ A1) as [Hi _]. cbn in Hi. exfalso. apply Hni.
+        apply in_or_app. left. exact Hi.
+      + eapply IHsub; eauto. eapply NoDup_app_l; eauto.
+      + destruct (opt_sets_ids _ _ _ _ _ A1) as [I1 _]. destruct (opt_sets_ids _ _ _ _ _ A2) as [I2 _].
+        exfalso. eapply (NoDup_app_disj _ _ _ Hr); eauto.
+      + subst id. destruct (opt_sets_ids _ _ _ _ _ A1) as [Hi _]. cbn in Hi. exfalso. apply Hni.
+        apply in_or_app. right. exact Hi.
+      + destruct (opt_sets_ids _ _ _ _ _ A1) as [I1 _]. destruct (opt_sets_ids _ _ _ _ _ A2) as [I2 _].
+        exfalso. eapply (NoDup_app_disj _ _ _ Hr); eauto.
+      + eapply IHrest; eauto. eapply NoDup_app_r; eauto.
+    - eapply IHrest; eauto.
+  Qed.
+End Sets.
+
+(* ---------------------------------------------------------------- the theorem *)
+Fixpoint args_ok (ss : sels) : Prop :=
+  match ss with
+  | SelNil => True
+  | SelField f sub rest => NoDup (map fst (f_args f)) /\ args_ok sub /\ args_ok rest
+  | SelInline _ _ sub rest => args_ok sub /\ args_ok rest
+  | SelSpread _ rest => args_ok rest
+  end.
+
+Lemma flat_map_nodup_same {A B} (g : A -> list B) l a b x :
+  NoDup (flat_map g l) -> In a l -> In b l -> In x (g a) -> In x (g b) -> a = b.
+Proof.
+  induction l as [|c l IH]; cbn [flat_map]; intros Hn Ha Hb Hxa Hxb; [contradiction|].
+  destruct Ha as [->|Ha], Hb as [->|Hb]; auto.
+  - exfalso. apply (NoDup_app_disj _ _ x Hn Hxa). apply in_flat_map. exists b. auto.
+  - exfalso. apply (NoDup_app_disj _ _ x Hn Hxb). apply in_flat_map. exists a. auto.
+  - apply IH; auto. eapply NoDup_app_r; eauto.
+Qed.
+
+Lemma flat_map_nodup_part {A B} (g : A -> list B) l a : NoDup (flat_map g l) -> In a l -> NoDup (g a).
+Proof.
+  induction l as [|c l IH]; cbn [flat_map]; intros Hn Ha; [contradiction|].
+  destruct Ha as [->|Ha]; [eapply NoDup_app_l; eauto | apply IH; auto; eapply NoDup_app_r; eauto].
+Qed.
+
+Section Final.
+  Variable s : schema.
+  Variable d : document.
+  Variable ord : list (bool * nat).
+
+  (* every operation and every fragment definition is visited *)
+  Definition covers_all : Prop :=
+    (forall i, (i < length (d_ops d))%nat -> In (true, i) ord) /\
+    (forall i, (i < length (d_frags d))%nat -> In (false, i) ord).
+
+  Hypothesis Hcov : covers_all.
+  Hypothesis Hids : nodupb (doc_all_ids d) = true.
+  Hypothesis Hnames : NoDup (map fr_name (d_frags d)).
+  Hypothesis Hargs_ops : forall o, In o (d_ops d) -> args_ok (snd o).
+  Hypothesis Hargs_frags : forall fd, In fd (d_frags d) -> args_ok (fr_body fd).
+
+  Notation AllSets := (run_sets s d ord).
+
+  Lemma op_sets_in i o : nth_error (d_ops d) i = Some o ->
+    incl ((fst o, IdOp (N.of_nat i), snd o) :: opt_sets s (fst o) (snd o)) AllSets.
+  Proof.
+    intros Hn x Hx. unfold run_sets. apply in_flat_map. exists (true, i). split.
+    - apply (proj1 Hcov). apply nth_error_Some. congruence.
+    - unfold order_sets. cbn [fst snd]. rewrite Hn. exact Hx.
+  Qed.
+
+  Lemma frag_sets_in i fd : nth_error (d_frags d) i = Some fd ->
+    incl ((fr_type fd, IdFrag (fr_name fd), fr_body fd) :: opt_sets s (fr_type fd) (fr_body fd)) AllSets.
+  Proof.
+    intros Hn x Hx. unfold run_sets. apply in_flat_map. exists (false, i). split.
+    - apply (proj2 Hcov). apply nth_error_Some. congruence.
+    - unfold order_sets. cbn [fst snd]. rewrite Hn. exact Hx.
+  Qed.
+
+  (* where a visited set comes from *)
+  Lemma sets_origin x : In x AllSets ->
+    (exists i o, nth_error (d_ops d) i = Some o /\
+                 (x = (fst o, IdOp (N.of_nat i), snd o) \/ In x (opt_sets s (fst o) (snd o)))) \/
+    (exists i fd, nth_error (d_frags d) i = Some fd /\
+                  (x = (fr_type fd, IdFrag (fr_name fd), fr_body fd) \/ In x (opt_sets s (fr_type fd) (fr_body fd)))).
+  Proof.
+    unfold run_sets. intro H. apply in_flat_map in H as [[isop i] [_ Hx]].
+    unfold order_sets in Hx. cbn [fst snd] in Hx. destruct isop.
+    - destruct (nth_error (d_ops d) i) as [o|] eqn:E; [|contradiction].
+      left. exists i, o. split; auto. destruct Hx as [<-|Hx]; auto.
+    - destruct (nth_error (d_frags d) i) as [fd|] eqn:E; [|contradiction].
+      right. exists i, fd. split; auto. destruct Hx as [<-|Hx]; auto.
+  Qed.
+
+  Lemma sets_closed q id t : In (q, id, t) AllSets -> incl (opt_sets s q t) AllSets.
+  Proof.
+    intro H. destruct (sets_origin _ H) as [[i [o [Hn [He|Hi]]]]|[i [fd [Hn [He|Hi]]]]].
+    - inversion He; subst. intros z Hz. apply (op_sets_in i o Hn). right. exact Hz.
+    - intros z Hz. apply (op_sets_in i o Hn). right. eapply opt_sets_trans; eauto.
+    - inversion He; subst. intros z Hz. apply (frag_sets_in i fd Hn). right. exact Hz.
+    - intros z Hz. apply (frag_sets_in i fd Hn). right. eapply opt_sets_trans; eauto.
+  Qed.
+
+  Lemma indoc_sets p ss : InDoc s d p ss -> incl (opt_sets s p ss) AllSets.
+  Proof.
+    induction 1 as [o Ho|fd Hf|p f sub rest _ IH|p f sub rest t _ IH Ht|p i tc sub rest _ IH
+                   |p i tc sub rest _ IH|p n rest _ IH]; intros z Hz.
+    - apply In_nth_error in Ho as [i Hi]. apply (op_sets_in i o Hi). right. exact Hz.
+    - apply In_nth_error in Hf as [i Hi]. apply (frag_sets_in i fd Hi). right. exact Hz.
+    - apply IH. cbn [opt_sets]. apply in_or_app. right. exact Hz.
+    - apply IH. cbn [opt_sets]. rewrite Ht. apply in_or_app. left.
+      destruct sub; [destruct Hz| | |]; right; exact Hz.
+    - apply IH. cbn [opt_sets]. apply in_or_app. right. exact Hz.
+    - apply IH. cbn [opt_sets]. apply in_or_app. left. right. exact Hz.
+    - apply IH. exact Hz.
+  Qed.
+
+  Lemma sub_visited x : EntryOk s d x -> has_sub (e_sub x) = true ->
+    In (sub_parent s x, IdField (f_id (e_fld x)), e_sub x) AllSets.
+  Proof.
+    intros [rest Hr] Hs. apply (indoc_sets _ _ Hr).
+    apply (flat_sub_set s (SelField (e_fld x) (e_sub x) rest) (e_parent x) x); auto.
+    cbn [flat]. left. destruct x; reflexivity.
+  Qed.
+
+  Lemma indoc_args p ss : InDoc s d p ss -> args_ok ss.
+  Proof.
+    induction 1 as [o Ho|fd Hf|p f sub rest _ IH|p f sub rest t _ IH Ht|p i tc sub rest _ IH
+                   |p i tc sub rest _ IH|p n rest _ IH]; cbn [args_ok] in *; auto; tauto.
+  Qed.
+
+  Lemma entry_args x : EntryOk s d x -> args_nodup x.
+  Proof. intros [rest Hr]. apply indoc_args in Hr. cbn [args_ok] in Hr. unfold args_nodup. tauto. Qed.
+
+  Lemma frag_visited F fd : find_frag (d_frags d) F = Some fd -> In (fr_type fd, IdFrag F, fr_body fd) AllSets.
+  Proof.
+    intro H. apply find_frag_some in H as [Hin Hname]. subst F.
+    apply In_nth_error in Hin as [i Hi]. apply (frag_sets_in i fd Hi). left. reflexivity.
+  Qed.
+
+  Lemma all_ids_nodup : NoDup (doc_all_ids d).
+  Proof. apply nodupb_NoDup. exact Hids. Qed.
+
+  Lemma code_kind a b : setid_code a = setid_code b -> a = b.
+  Proof. destruct a, b; unfold setid_code; intro H; try (exfalso; lia); f_equal; lia. Qed.
+
+  (* the code of a set identity determines the set *)
+  Lemma sets_code_fun x y : In x AllSets -> In y AllSets ->
+    setid_code (snd (fst x)) = setid_code (snd (fst y)) -> x = y.
+  Proof.
+    intros Hx Hy Hc. pose proof all_ids_nodup as Hnd. unfold doc_all_ids in Hnd.
+    destruct x as [[q id] t], y as [[q' id'] t']. cbn [fst snd] in Hc. apply code_kind in Hc. subst id'.
+    assert (Hbelow : forall p ss p' ss',
+               (p, ss) = (p', ss') \/ False ->
+               In (q, id, t) (opt_sets s p ss) -> In (q', id, t') (opt_sets s p' ss') ->
+               NoDup (all_ids_sels ss) -> (q, id, t) = (q', id, t')).
+    { intros p ss p' ss' [He|[]] H1 H2 Hn. inversion He; subst.
+      destruct (opt_sets_fun s ss' p' Hn _ _ _ _ _ H1 H2) as [-> ->]. reflexivity. }
+    destruct (sets_origin _ Hx) as [[i [o [Hn [He|Hi]]]]|[i [fd [Hn [He|Hi]]]]];
+      destruct (sets_origin _ Hy) as [[j [o' [Hn' [He'|Hi']]]]|[j [fd' [Hn' [He'|Hi']]]]].
+    - inversion He; subst. inversion He' as [[Hq Hid Ht]]. apply Nnat.Nat2N.inj in Hid. subst j.
+      rewrite Hn in Hn'. inversion Hn'; subst. reflexivity.
+    - inversion He; subst. destruct (opt_sets_ids s _ _ _ _ _ Hi') as [_ [n [Hk|Hk]]]; discriminate.
+    - inversion He; inversion He'; subst. discriminate.
+    - inversion He; subst. destruct (opt_sets_ids s _ _ _ _ _ Hi') as [_ [n [Hk|Hk]]]; discriminate.
+    - inversion He'; subst. destruct (opt_sets_ids s _ _ _ _ _ Hi) as [_ [n [Hk|Hk]]]; discriminate.
+    - (* both below operations *)
+      destruct (opt_sets_ids s _ _ _ _ _ Hi) as [I1 _]. destruct (opt_sets_ids s _ _ _ _ _ Hi') as [I2 _].
+      pose proof (nth_error_In _ _ Hn) as Ho. pose proof (nth_error_In _ _ Hn') as Ho'.
+      pose proof (NoDup_app_l _ _ Hnd) as Hops.
+      assert (o = o') by (eapply (flat_map_nodup_same (fun o => all_ids_sels (snd o))); eauto). subst o'.
+      apply (Hbelow (fst o) (snd o) (fst o) (snd o)); auto.
+      apply (flat_map_nodup_part (fun o => all_ids_sels (snd o)) _ o Hops Ho).
+    - inversion He'; subst. destruct (opt_sets_ids s _ _ _ _ _ Hi) as [_ [n [Hk|Hk]]]; discriminate.
+    - (* below an operation and below a fragment: disjoint ids *)
+      destruct (opt_sets_ids s _ _ _ _ _ Hi) as [I1 _]. destruct (opt_sets_ids s _ _ _ _ _ Hi') as [I2 _].
+      exfalso. apply (NoDup_app_disj _ _ (idnum id) Hnd).
+      + apply in_flat_map. exists o. split; [eapply nth_error_In; eauto | exact I1].
+      + apply in_flat_map. exists fd'. split; [eapply nth_error_In; eauto | exact I2].
+    - inversion He; inversion He'; subst. discriminate.
+    - inversion He; subst. destruct (opt_sets_ids s _ _ _ _ _ Hi') as [_ [n [Hk|Hk]]]; discriminate.
+    - inversion He; subst. inversion He' as [[Hq Hid Ht]].
+      pose proof (nth_error_In _ _ Hn) as Hf. pose proof (nth_error_In _ _ Hn') as Hf'.
+      assert (fd = fd') by (apply (nodup_map_inj fr_name (d_frags d) Hnames); auto). subst fd'. reflexivity.
+    - inversion He; subst. destruct (opt_sets_ids s _ _ _ _ _ Hi') as [_ [n [Hk|Hk]]]; discriminate.
+    - inversion He'; subst. destruct (opt_sets_ids s _ _ _ _ _ Hi) as [_ [n [Hk|Hk]]]; discriminate.
+    - destruct (opt_sets_ids s _ _ _ _ _ Hi) as [I1 _]. destruct (opt_sets_ids s _ _ _ _ _ Hi') as [I2 _].
+      exfalso. apply (NoDup_app_disj _ _ (idnum id) Hnd).
+      + apply in_flat_map. exists o'. split; [eapply nth_error_In; eauto | exact I2].
+      + apply in_flat_map. exists fd. split; [eapply nth_error_In; eauto | exact I1].
+    - inversion He'; subst. destruct (opt_sets_ids s _ _ _ _ _ Hi) as [_ [n [Hk|Hk]]]; discriminate.
+    - (* both below fragments *)
+      destruct (opt_sets_ids s _ _ _ _ _ Hi) as [I1 _]. destruct (opt_sets_ids s _ _ _ _ _ Hi') as [I2 _].
+      pose proof (nth_error_In _ _ Hn) as Hf. pose proof (nth_error_In _ _ Hn') as Hf'.
+      pose proof (NoDup_app_r _ _ Hnd) as Hfr.
+      assert (fd = fd') by (eapply (flat_map_nodup_same (fun fd => all_ids_sels (fr_body fd))); eauto). subst fd'.
+      apply (Hbelow (fr_type fd) (fr_body fd) (fr_type fd) (fr_body fd)); auto.
+      apply (flat_map_nodup_part (fun fd => all_ids_sels (fr_body fd)) _ fd Hfr Hf).
+  Qed.
+
+  (* the concrete field-map relation *)
+  Definition FMdoc (c : N) (fm : list entry) : Prop :=
+    exists x, In x AllSets /\ c = setid_code (snd (fst x)) /\
+              fm = fst (fields_and_spreads (fst (fst x)) (snd x) ([], [])).
+
+  Lemma FMdoc_fun c fm fm' : FMdoc c fm -> FMdoc c fm' -> fm = fm'.
+  Proof.
+    intros [x [Hx [Hc ->]]] [y [Hy [Hc' ->]]]. rewrite Hc in Hc'.
+    rewrite (sets_code_fun x y Hx Hy Hc'). reflexivity.
+  Qed.
+
+  Lemma FMdoc_closed c fm x : FMdoc c fm -> In x fm -> ewf s FMdoc x.
+  Proof.
+    intros [[[q id] t] [Hset [_ ->]]] Hx Hs. cbn [fst snd] in Hx. rewrite D_flat in Hx.
+    exists (sub_parent s x, IdField (f_id (e_fld x)), e_sub x). split; [|split; reflexivity].
+    apply (sets_closed q id t Hset). apply flat_sub_set; auto.
+  Qed.
+
+  Lemma FMdoc_frag fd x : In fd (d_frags d) -> In x (Dfrag fd) -> ewf s FMdoc x.
+  Proof.
+    intros Hfd Hx. apply In_nth_error in Hfd as [i Hi].
+    apply (FMdoc_closed (setid_code (IdFrag (fr_name fd))) (Dfrag fd)); auto.
+    exists (fr_type fd, IdFrag (fr_name fd), fr_body fd). split; [|split; reflexivity].
+    apply (frag_sets_in i fd Hi). left. reflexivity.
+  Qed.
+
+  (* The memoisation never hides a conflict. *)
+  Theorem memo_never_hides fuel :
+    (opt_fuel d <= fuel)%nat -> spec_conflicts s d = true -> opt_conflicts s d ord fuel = Some true.
+  Proof.
+    intros Hfuel Hspec. unfold opt_conflicts.
+    pose proof (opt_terminates s d ord fuel Hfuel) as Hterm.
+    pose proof (opt_run_sim s d ord fuel) as Hsim.
+    destruct (opt_run s d ord fuel) as [|m|m] eqn:Er; [contradiction | reflexivity |].
+    exfalso.
+    destruct (topt_run s d ord fuel) as [| |mt] eqn:Et; try contradiction.
+    destruct (topt_run_closed s d FMdoc FMdoc_fun FMdoc_closed FMdoc_frag ord fuel mt) as [HL HS]; auto.
+    { intros x Hx. exists x. auto. }
+    destruct (spec_sound s d Hspec) as [p [ss [Hin Hsc]]].
+    assert (Hvis : exists id, In (p, id, ss) AllSets).
+    { unfold doc_sets, root_sets in Hin.
+      apply in_app_or in Hin as [Hin|Hin]; apply in_flat_map in Hin as [x [Hx Hin]].
+      - destruct (is_composite s (fst x)); [|contradiction].
+        apply In_nth_error in Hx as [i Hi]. destruct Hin as [Hin|Hin].
+        + inversion Hin; subst. exists (IdOp (N.of_nat i)). apply (op_sets_in i x Hi). left. reflexivity.
+        + destruct (checked_in_opt s _ _ _ _ Hin) as [id Hid]. exists id. apply (op_sets_in i x Hi). right. exact Hid.
+      - destruct (is_composite s (fr_type x)); [|contradiction].
+        apply In_nth_error in Hx as [i Hi]. destruct Hin as [Hin|Hin].
+        + inversion Hin; subst. exists (IdFrag (fr_name x)). apply (frag_sets_in i x Hi). left. reflexivity.
+        + destruct (checked_in_opt s _ _ _ _ Hin) as [id Hid]. exists id. apply (frag_sets_in i x Hi). right. exact Hid. }
+    destruct Hvis as [id Hvis].
+    apply (closed_no_setconf s d (t_log mt) AllSets HL HS frag_visited sets_code_fun sub_visited entry_args
+                             p ss id); auto.
+    apply doc_sets_indoc. exact Hin.
+  Qed.
+End Final.
